@@ -93,12 +93,14 @@ def _chunk(args):
 
     if what == "unit":
         UL = dict(units_list(sp))
-        for pn, un in items:
+        for idx_, (pn, un) in enumerate(items):
             p = PL[pn]
             u = sp.unit(UL[un])
             su = sp.oracle.unit_size(u)
             key = f"{pn} x {un}"
-            rp = {"what": "unit", "p": pn, "u": un}
+            # the items of a chunk share one restored state: the replay re-runs the chunk up to
+            # and including this item
+            rp = {"what": "unit", "p": pn, "u": un, "ctx": [list(x) for x in items[: idx_ + 1]]}
             vp = pval(p)
             tol = tol_for(p, u.prefix)
             try:
@@ -194,10 +196,10 @@ def _chunk(args):
         if what == "pair-all":
             # thorough: every named unit and every compound under every ordered prefix pair
             pool = [sp.unit(spec) for _, spec in units_list(sp)]
-        for pn, qn_ in items:
+        for idx_, (pn, qn_) in enumerate(items):
             p, q = PL[pn], PL[qn_]
             key = f"{pn} , {qn_}"
-            rp = {"what": "pair", "p": pn, "q": qn_}
+            rp = {"what": what, "p": pn, "q": qn_, "ctx": [list(x) for x in items[: idx_ + 1]]}
             vp, vq = pval(p), pval(q)
             tol = tol_for(p, q)
             out["nt"].add((pn, qn_))
@@ -320,9 +322,12 @@ def run(rep, tier):
 
 
 def replay(obj, kind=None):
+    ctx = [tuple(x) for x in obj.get("ctx") or []]
     if obj["what"] == "unit":
-        r = _chunk(("unit", [(obj["p"], obj["u"])]))
+        r = _chunk(("unit", ctx or [(obj["p"], obj["u"])]))
+        key = f"{obj['p']} x {obj['u']}"
     else:
-        r = _chunk(("pair-all", [(obj["p"], obj["q"])]))
-    hits = [v for v in r["viols"] if kind is None or v[0] == kind]
+        r = _chunk((obj["what"] if obj["what"] != "pair" or ctx else "pair-all", ctx or [(obj["p"], obj["q"])]))
+        key = f"{obj['p']} , {obj['q']}"
+    hits = [v for v in r["viols"] if (kind is None or v[0] == kind) and v[1] == key]
     return (True, hits[0][2]) if hits else (False, "identities hold")
